@@ -193,6 +193,15 @@ def main(argv):
     n_dis = sum(1 for kn, g in byname.items() if kn not in kf_obs and not g["failed"] and not g["unknown"])
     inst = sum(g["instances"] for g in byname.values())
     solver_time = sum(g["time"] for g in byname.values())
+    # thorough tier: independent second opinion of cvc5 on obligations z3 discharged; `sat` from cvc5 on something z3
+    # proved is a disagreement between the back ends = checker failure (never a violation)
+    cvc5_recheck = {}
+    for _key, ob, _h in all_obs:
+        r2 = (ob.get("info") or {}).get("cvc5_recheck")
+        if r2:
+            cvc5_recheck[r2] = cvc5_recheck.get(r2, 0) + 1
+            if r2 == "sat":
+                checker_failure = (checker_failure or "") + "cvc5 finds a model for %s, which z3 discharged\n" % ob["name"]
     by_backend = {}
     for g in byname.values():
         for b, n in g["backends"].items():
@@ -261,7 +270,7 @@ def main(argv):
         "checker_cmd": "./check %s %s" % (pid, tier),
         "trusted_base": trusted,
         "functions_under_contract": funcs,
-        "by_backend": by_backend, "solver_time_s": round(solver_time, 2),
+        "by_backend": by_backend, "solver_time_s": round(solver_time, 2), "cvc5_recheck": cvc5_recheck,
         "bounded_standins": [{k: v for k, v in br.items() if k not in ("violations", "samples")} for br in bounded_results],
         "undecided_functions": [{"function": k, "reason": r[:300]} for k, r in undecided],
         "open_unknown_obligations": [{"function": k, "obligation": n} for k, n, _ in open_unknown],
